@@ -225,7 +225,22 @@ def _subprocess_run_duplicate_streams(cmd, timeout):
     # They seem to work better (i.e. do not hang) than pipes, when using
     # interactive commands like `vi`.
     stdout_fd, stdout_name = tempfile.mkstemp()
-    stderr_fd, stderr_name = tempfile.mkstemp()
+    try:
+        stderr_fd, stderr_name = tempfile.mkstemp()
+    except BaseException:
+        # Don't leave the first capture file behind if the second can't be made
+        os.close(stdout_fd)
+        os.remove(stdout_name)
+        raise
+
+    def _remove_capture_file(name):
+        # FIXME: retry failed file removal once to maybe work around #547
+        try:
+            os.remove(name)
+        except PermissionError:  # pragma: no cover
+            time.sleep(0.01)
+            os.remove(name)
+
     try:
         with io.open(
             stdout_name, "rb"
@@ -301,13 +316,11 @@ def _subprocess_run_duplicate_streams(cmd, timeout):
 
     finally:
         # The work is done or was interrupted, the temp files can be removed
-        # FIXME: retry failed file removal once to maybe work around #547
-        for name in (stdout_name, stderr_name):
-            try:
-                os.remove(name)
-            except PermissionError:  # pragma: no cover
-                time.sleep(0.01)
-                os.remove(name)
+        # (the second one also if removing the first one fails)
+        try:
+            _remove_capture_file(stdout_name)
+        finally:
+            _remove_capture_file(stderr_name)
 
     # Return process exit code and captured streams
     return proc.poll(), streams["out"], streams["err"]
